@@ -2,6 +2,8 @@ package simrt
 
 import (
 	"context"
+	crand "crypto/rand"
+	"fmt"
 	"net"
 	"time"
 )
@@ -51,4 +53,19 @@ func DialerDialContext(d *net.Dialer, ctx context.Context, network, address stri
 		return h.Dial(ctx, network, address)
 	}
 	return d.DialContext(ctx, network, address)
+}
+
+// UUIDString replaces uuid.NewString in woven code: inside a run the ids come
+// from the run's own counter (crypto/rand would make object keys, and with
+// them the trace, differ between two runs of one seed).
+func UUIDString() string {
+	if s := Current(); s != nil {
+		n := s.uuidSeq.Add(1)
+		return fmt.Sprintf("00000000-0000-4000-8000-%012x", n)
+	}
+	var b [16]byte
+	_, _ = crand.Read(b[:])
+	b[6] = (b[6] & 0x0f) | 0x40
+	b[8] = (b[8] & 0x3f) | 0x80
+	return fmt.Sprintf("%x-%x-%x-%x-%x", b[0:4], b[4:6], b[6:8], b[8:10], b[10:16])
 }
